@@ -592,6 +592,51 @@ func c13AssembledDicts(r *run.Run) {
 		})
 }
 
+// the predefined charsets (a file refers to them by id instead of storing a charset): prefixes and the full length
+func c13Predefined(r *run.Run) {
+	full := []int{229, 166, 87}
+	r.Explore(explore.Config{Name: "C13.predefined-charsets"},
+		"CFF tables assembled with the predefined charsets ISOAdobe (229 glyphs), Expert (166) and ExpertSubset (87) and 2, 3, n-1 and n glyphs: cff.Read accepts them; for ISOAdobe the glyph names are the standard strings 1..228 in order",
+		func(c *explore.Ctx) {
+			id := c.Choose(3, "predefined charset")
+			n := []int{2, 3, full[id] - 1, full[id]}[c.Choose(4, "glyphs")]
+			spec := &refcff.AsmSpec{Name: "Pre", Predefined: id + 1, Privates: []refcff.AsmPrivate{{}}}
+			for i := 0; i < n; i++ {
+				spec.CharStrings = append(spec.CharStrings, []byte{139, 139, 21, 14})
+			}
+			desc := fmt.Sprintf("predefined charset %d with %d glyphs", id, n)
+			c.Sample(func() any { return desc })
+			c.Nontrivial()
+			data := refcff.Assemble(spec)
+			c.Outcome(desc)
+			f, err := cff.Read(bytes.NewReader(data))
+			if err != nil {
+				c.Fail("C13.read", "predefined charset", "cff.Read rejects a table with %s: %v", desc, err)
+				return
+			}
+			if len(f.Glyphs) != n {
+				c.Fail("C13.read", "predefined charset", "%d glyphs read, %d written (%s)", len(f.Glyphs), n, desc)
+				return
+			}
+			if id == 0 {
+				for i := 1; i < n; i++ {
+					if want := refcff.StdString(i); f.Glyphs[i].Name != want {
+						c.Fail("C13.names", "predefined charset", "glyph %d is called %q, ISOAdobe says %q (%s)", i, f.Glyphs[i].Name, want, desc)
+						break
+					}
+				}
+			}
+			seen := map[string]bool{}
+			for i, g := range f.Glyphs {
+				if g.Name == "" || seen[g.Name] {
+					c.Fail("C13.names", "predefined charset", "glyph %d has the empty or repeated name %q (%s)", i, g.Name, desc)
+					break
+				}
+				seen[g.Name] = true
+			}
+		})
+}
+
 func c13Numbers(r *run.Run) {
 	ints := []int32{0, 107, 108, -107, -108, 1131, 1132, -1131, -1132, 32767, 32768, -32768, -32769, 1<<31 - 1, -1 << 31}
 	reals := []float64{0.5, 0.001, 0.039625, 1e-5, 123456789, 1.23456789e-20, -7.5e12, 0.1, -0.25, 3.0e-3, 1e10, 1e300, -2.5e-300, 3e-310, 5e-324}
@@ -719,6 +764,7 @@ func init() {
 		c13CID(r)
 		c13Runs(r)
 		c13AssembledDicts(r)
+		c13Predefined(r)
 		c13Numbers(r)
 		c13Widths(r)
 	})
